@@ -20,6 +20,9 @@ class PanicSite:
         self.sp = sp
         self.detail = detail
 
+        if debug_only(sp):
+            DEBUG_ONLY.add("%s:%s (%s)" % (sp["file"], sp["line"], q.fn.short()))
+
     def loc(self):
         return "%s:%s (%s)" % (self.sp["file"], self.sp["line"], self.q.fn.short())
 
@@ -27,7 +30,22 @@ class PanicSite:
         return "%s %s" % (self.kind, render(self.expr) if self.expr else "")
 
 
+# assertion sites that exist only when debug assertions are compiled in (`debug_assert*!`): not part of the release behaviour;
+# in debug builds they abort only where an invariant stated by the author fails. They are not counted as abort sites; every one
+# met is listed here and reported in the evidence notes (engine) as an assumption "the stated invariant holds".
+DEBUG_ONLY = set()
+
+
+def debug_only(sp):
+    return "debug_assert" in (sp.get("expc") or "")
+
+
 def panic_sites(q):
+    out = [p for p in _panic_sites(q) if not debug_only(p.sp)]
+    return out
+
+
+def _panic_sites(q):
     out = []
     body = q.fn.body
     for blk in body.blocks:
